@@ -81,10 +81,15 @@ func c08Eval(c *fw.Ctx, k c08Case) (sig, desc string, nontrivial bool, outcome s
 			}
 		}
 		(&BFile{L: l, Rings: dst}).Write(dpath)
-	case "other-layout":
+	case "other-layout", "other-layout-points":
 		o := LayoutByTag("L5")
 		if k.Layout == "L5" {
 			o = LayoutByTag("L4")
+		}
+		if k.DstKind == "other-layout-points" { // only the last archive's point count differs
+			oa := append([]wsp.Arch{}, l.Archs...)
+			oa[len(oa)-1].N++
+			o = LayoutDef{Archs: oa}
 		}
 		(&BFile{L: wsp.Layout{Archs: o.Archs, Method: k.Method, XFF: k.XFF}, Rings: EmptyRings(wsp.Layout{Archs: o.Archs})}).Write(dpath)
 	}
@@ -120,7 +125,7 @@ func c08Eval(c *fw.Ctx, k c08Case) (sig, desc string, nontrivial bool, outcome s
 	if !bytes.Equal(nowSrc, srcBytes) {
 		return "C08/source-modified", ctx + ": the source file changed", false, outcome
 	}
-	if k.DstKind == "other-layout" {
+	if k.DstKind == "other-layout" || k.DstKind == "other-layout-points" {
 		post, _ := os.ReadFile(dpath)
 		if cls == "nil" {
 			return "C08/layout-mismatch-not-reported", ctx + ": copy into a destination with another layout reported success", true, outcome
@@ -202,7 +207,10 @@ func c08Eval(c *fw.Ctx, k c08Case) (sig, desc string, nontrivial bool, outcome s
 			if err != nil {
 				return "C08/glob/unparsable", ctx + ": " + err.Error(), nontrivial, outcome
 			}
-			gr, _ := gf.Rings()
+			gr, err := gf.Rings()
+			if err != nil {
+				return "C08/glob/unparsable", ctx + ": " + f + ": " + err.Error(), nontrivial, outcome
+			}
 			h, _ := ExpRead(l, gr, k.Archive, k.From, until, k.Now)
 			for i := range want {
 				if want[i] == nil {
@@ -268,7 +276,11 @@ func runC08(c *fw.Ctx) {
 		if tag == "L5" {
 			var s2 [][]int
 			for i, s := range srcs {
-				if i%41 == 0 {
+				sum := 0
+				for _, d := range s {
+					sum += d
+				}
+				if (i/3+sum)%41 == 0 {
 					s2 = append(s2, s)
 				}
 			}
@@ -278,8 +290,12 @@ func runC08(c *fw.Ctx) {
 		if tag == "L10" && !c.Thorough() {
 			// three levels: every third source content, destinations over {absent, 5} plus "equal to the source in the coarser archives"
 			var s2 [][]int
-			for i, s := range srcs {
-				if i%3 == 0 {
+			for _, s := range srcs {
+				sum := 0
+				for _, d := range s {
+					sum += d
+				}
+				if sum%3 == 0 { // digit sum, so that no single slot is pinned to one choice
 					s2 = append(s2, s)
 				}
 			}
@@ -292,7 +308,7 @@ func runC08(c *fw.Ctx) {
 			if si%3 == 0 && tag == "L4" && c.Thorough() {
 				dsts = dsts3
 			}
-			for di := -4; di < len(dsts); di++ {
+			for di := -5; di < len(dsts); di++ {
 				if !c.Mine() {
 					continue
 				}
@@ -302,6 +318,8 @@ func runC08(c *fw.Ctx) {
 				kind := "file"
 				var d []int
 				switch di {
+				case -5:
+					kind = "other-layout-points"
 				case -4:
 					kind = "coarser-equal"
 				case -3:
@@ -320,7 +338,7 @@ func runC08(c *fw.Ctx) {
 				for ai, arch := range archSel {
 					for wi, w := range wins {
 						for ni, cn := range []bool{false, true} {
-							m := mx[(si+di+4+ai+wi+ni)%len(mx)]
+							m := mx[(si+di+5+ai+wi+ni)%len(mx)]
 							if !c.Thorough() && (wi > 1 || ai > 0) && (si+di+ai+wi+ni)%3 != 0 {
 								continue
 							}
